@@ -3,6 +3,7 @@ package checks
 import (
 	"encoding/json"
 	"fmt"
+	"strings"
 	"time"
 
 	"github.com/olareg/olareg/config"
@@ -128,6 +129,24 @@ func c09RecoverInner(f *Fix, repo string, items, tags, subjects []string, pol GC
 			pick, which = da, "the state after the interrupted request"
 		}
 		sig := "neither-before-nor-after:" + opClass(interrupted)
+		if opClass(interrupted) == "artifact-push" {
+			// shape: is the pushed artifact itself the only thing the differences are about (served but not yet listed as a
+			// referrer, the known two-index-writes finding), or is other, earlier acknowledged content affected?
+			if fl := strings.Fields(interrupted); len(fl) > 1 && f.Items[fl[1]] != nil {
+				it := f.Items[fl[1]]
+				only := true
+				for _, v := range append(append([]h.Violation{}, db...), da...) {
+					if !strings.Contains(v.Detail, it.Name+" ") && !strings.Contains(v.Detail, it.Dig) {
+						only = false
+					}
+				}
+				if only {
+					sig += ":only-the-pushed-artifact"
+				} else {
+					sig += ":other-content-affected"
+				}
+			}
+		}
 		detail := fmt.Sprintf("after a crash inside %q the readable state is neither the one before nor the one after the request; closest is %s, differences:", interrupted, which)
 		for i, v := range pick {
 			if i >= 4 {
@@ -164,14 +183,14 @@ func c09Specs(tier string) []*h.CrashSpec {
 	f := StdFix()
 	const repo = "r"
 	pol := GCPolicy{Untagged: true, Dangling: true, WithSubj: true, EmptyRepo: true, Grace: -1, Freq: 15 * time.Minute}
-	items := []string{"c", "l1", "l2", "e", "I1", "I2", "A1"}
+	items := []string{"c", "l1", "l2", "e", "I1", "I2", "A1", "A2"}
 	tags := []string{"t", "u"}
 	subjects := []string{f.Items["I1"].Dig}
 	var ops []h.Op
 	for _, b := range []string{"c", "l1", "l2", "e"} {
 		ops = append(ops, opPushBlob("C09", repo, f, b))
 	}
-	ops = append(ops, opPushMan("C09", repo, f, "I1", "t"), opPushMan("C09", repo, f, "I2", "t"), opPushMan("C09", repo, f, "I1", "u"), opPushMan("C09", repo, f, "A1", ""))
+	ops = append(ops, opPushMan("C09", repo, f, "I1", "t"), opPushMan("C09", repo, f, "I2", "t"), opPushMan("C09", repo, f, "I1", "u"), opPushMan("C09", repo, f, "A1", ""), opPushMan("C09", repo, f, "A2", ""))
 	ops = append(ops, opDeleteTag("C09", repo, "t"), opDeleteMan("C09", repo, f, "I1"), opDeleteMan("C09", repo, f, "A1"))
 	ops = append(ops, h.Op{Name: "collection tick", Do: func(w *h.World) []h.Violation {
 		if gcTick(w) {
@@ -327,7 +346,7 @@ func c09Specs(tier string) []*h.CrashSpec {
 func init() {
 	h.RegisterCrash(&h.CrashCheck{
 		ID: "C09",
-		Rule: "for every history of length <= 3 (quick) / <= 4 (thorough, within the time budget) over 12 single-request operations (blob uploads, first push, tag move, second tag, artifact push, tag / digest / artifact delete, collection tick) from four start states, plus three longer scripts, plus the same lengths over 7 operations on an index and its children (push by digest / tag, delete of the index, of a child, of the tag, tick) from two start states: every mutating filesystem call of the directory store (mkdir, create-temp, write, write-file, rename, remove) is a crash point and every write is torn after 0, n/2 and n-1 bytes; " +
+		Rule: "for every history of length <= 3 (quick) / <= 4 (thorough, within the time budget) over 13 single-request operations (blob uploads, first push, tag move, second tag, two artifact pushes for one subject, tag / digest / artifact delete, collection tick) from four start states, plus three longer scripts, plus the same lengths over 7 operations on an index and its children (push by digest / tag, delete of the index, of a child, of the tag, tick) from two start states: every mutating filesystem call of the directory store (mkdir, create-temp, write, write-file, rename, remove) is a crash point and every write is torn after 0, n/2 and n-1 bytes; " +
 			"after each crash the server is discarded without Close, a new one is opened on the directory, and the oracle checks that the repository loads, every blob file hashes to its name, every tag resolves to a complete image, and the readable state equals the model before or after the interrupted request; non-trivial = distinct recovered directory trees",
 		Assume: []string{"process-crash model: everything issued before the crash point is on disk, nothing after it (loss of un-synced pages is outside the property)", "left-over temporary files under _uploads/ and index.json.* are not violations", "collection policy: untagged and dangling referrers collected, no grace period, so that ticks remove content"},
 		Specs:  c09Specs,
